@@ -12,6 +12,7 @@ or :py:meth:`DiffXChangeSection.add_file`.
 import io
 import logging
 from copy import deepcopy
+from inspect import getattr_static
 
 from pydiffx.dom.properties import (ContainerOptionsMixin,
                                     DiffOptionsMixin,
@@ -20,9 +21,11 @@ from pydiffx.dom.properties import (ContainerOptionsMixin,
                                     LineEndingsOptionProperty,
                                     MetaFormatOptionProperty,
                                     MetaOptionsMixin,
+                                    OptionProperty,
                                     PreambleIndentOptionProperty,
                                     PreambleMimeTypeOptionProperty,
                                     PreambleOptionsMixin,
+                                    SubsectionAttrProperty,
                                     VersionOptionProperty)
 from pydiffx.dom.reader import DiffXDOMReader
 from pydiffx.dom.writer import DiffXDOMWriter
@@ -105,8 +108,17 @@ class BaseDiffXSection(object):
 
         self._setup_state()
 
+        cls = type(self)
+
         for name, value in attrs.items():
+            # Only option and content attributes can be set here, and not
+            # other state on the instance (such as the lists of subsections).
             try:
+                if not isinstance(getattr_static(cls, name, None),
+                                  (OptionProperty, SubsectionAttrProperty,
+                                   property)):
+                    raise AttributeError(name)
+
                 setattr(self, name, value)
             except AttributeError:
                 raise DiffXUnknownOptionError(
